@@ -184,4 +184,45 @@ def capLe (cap : Option Nat) (c : Nat) : Prop :=
   | none => True
   | some m => c ≤ m
 
+/-! ## One descheduling cycle (pkg/descheduler/descheduler.go deschedulerOnce) -/
+
+/-- the evictions a phase of a cycle attempts, in execution order, each through `handle.Evictor().Evict`
+    (`evictorProxy.Evict`); `(pod, answer of the evict plugin / API)`.  Returns the counters and one result per attempt. -/
+def pxSeq (lim : Option Caps) (dry : Bool) : Ctr → List (Pod × Bool) → Ctr × List EvOut
+  | s, [] => (s, [])
+  | s, (p, ok) :: r =>
+    let a := pxEvict lim dry s p ok
+    let b := pxSeq lim dry a.1 r
+    (b.1, a.2 :: b.2)
+
+/-- deschedulerOnce as the sequence of its limiter-relevant events in source order (re-extracted from the source on
+    every run: Generated.C16.cycleEvents).  1 = `d.evictionLimiter.Reset()` outside every loop, 2 = the same inside a
+    loop, 3 = the Deschedule phase (the loop over the profiles calling RunDeschedulePlugins: attempts `ph1`),
+    4 = the Balance phase (RunBalancePlugins: attempts `ph2`); helpers of the package are inlined at their call sites. -/
+def runCycleEvents (lim : Option Caps) (dry : Bool) : List Nat → Ctr → List (Pod × Bool) → List (Pod × Bool) → Ctr × List EvOut
+  | [], s, _, _ => (s, [])
+  | e :: r, s, ph1, ph2 =>
+    if e = 1 ∨ e = 2 then runCycleEvents lim dry r {} ph1 ph2
+    else if e = 3 then
+      let a := pxSeq lim dry s ph1
+      let b := runCycleEvents lim dry r a.1 ph1 ph2
+      (b.1, a.2 ++ b.2)
+    else if e = 4 then
+      let a := pxSeq lim dry s ph2
+      let b := runCycleEvents lim dry r a.1 ph1 ph2
+      (b.1, a.2 ++ b.2)
+    else runCycleEvents lim dry r s ph1 ph2
+
+/-- deschedulerOnce as written: Reset once, then the Deschedule phase of all profiles, then the Balance phase -/
+def cycleShape : List Nat := [1, 3, 4]
+
+/-- one cycle from the counters `s` left by the previous one -/
+def cycle (lim : Option Caps) (dry : Bool) (s : Ctr) (ph1 ph2 : List (Pod × Bool)) : Ctr × List EvOut :=
+  runCycleEvents lim dry cycleShape s ph1 ph2
+
+/-- the evictions actually issued by a list of attempts: result ok and a call was made -/
+def issuedOf : List (Pod × Bool) → List EvOut → List Pod
+  | (p, _) :: r, o :: os => if o.ok && o.called then p :: issuedOf r os else issuedOf r os
+  | _, _ => []
+
 end KoordVerif.C16
